@@ -118,8 +118,10 @@ pub fn exercise(bytes: &[u8]) -> Result<Report, String> {
     if pk < 64 {
         return exercise_inner(bytes);
     }
+    // the helper thread reports itself under the worker thread's in-flight slot (abort diagnosis)
+    let slot = crate::engine::MY_SLOT.with(|c| c.get());
     std::thread::scope(|sc| {
-        let h = std::thread::Builder::new().stack_size(1 << 20).spawn_scoped(sc, || exercise_inner(bytes)).map_err(|e| format!("harness: cannot spawn: {e}"))?;
+        let h = std::thread::Builder::new().stack_size(1 << 20).spawn_scoped(sc, move || { crate::engine::MY_SLOT.with(|c| c.set(slot)); exercise_inner(bytes) }).map_err(|e| format!("harness: cannot spawn: {e}"))?;
         h.join().unwrap_or_else(|_| Err("PANIC escaped the driver".into()))
     })
 }
